@@ -73,9 +73,9 @@ TIES = {
                            ("C12", ["DsProofs.TieC.TIEC_fork", "DsProofs.TieC.TIEC_getitem"])]),
     "addops": dict(translator="translate_addops", targets=["GenD", "TieD"], audit="AuditTieD.lean", root="TieD", driver=None,
                    modules=["GenD.Ops", "TieD.Properties", "TieD.Reach"],
-                   what="ADD.restrict, ADD.modelcount, ADD.sum, ShapleyOracle.__init__, ShapleyOracle.query (harness/translate_addops.py -> lean/GenD/Ops.lean)",
+                   what="ADD.restrict, ADD.modelcount, ADD.sum, ADD.update, ADD.construct_chain, ShapleyOracle.__init__, ShapleyOracle.query (harness/translate_addops.py -> lean/GenD/Ops.lean)",
                    reg=[("C10", ["DsProofs.TieD.TIED_restrict", "DsProofs.TieD.TIED_modelcount", "DsProofs.TieD.TIED_restrict_reach", "DsProofs.TieD.TIED_modelcount_reach",
-                                 "DsProofs.TieD.reach_shape", "DsProofs.TieD.TIED_sum"]),
+                                 "DsProofs.TieD.reach_shape", "DsProofs.TieD.TIED_sum", "DsProofs.TieD.TIED_update", "DsProofs.TieD.TIED_chain"]),
                         ("C09", ["DsProofs.TieD.TIED_query", "DsProofs.TieD.TIED_init", "DsProofs.TieD.TIED_restrict_reach", "DsProofs.TieD.TIED_modelcount_reach", "DsProofs.TieD.TIED_sum"]),
                         ("C02", ["DsProofs.TieD.TIED_query"])]),
     "exprops": dict(translator="translate_expr", targets=["GenE", "TieE"], audit="AuditTieE.lean", root="TieE", driver=None,
